@@ -156,6 +156,7 @@ class Loop(object):
         self.enumerated = False
         self.counter_key = None
         self.shapes = {}        # carried key (or part of one) -> the aggregate it is split into, component by component
+        self.split_key = None   # carried key of the slice cursor, for a loop that peels a slice with split_first(_mut)
         self.literal = None     # the elements, when the loop runs over a list written out in the function ([a, b] / vec![a, b])
         self.head_site = None   # site of the `next` call that starts an iteration
 
@@ -266,6 +267,7 @@ class Evaluator(object):
         self.unrolling = {}    # site of a loop-head `next` -> the element it yields now (None: exhausted), while a loop is written out
         self.agg_targs = {}    # aggregate term -> set of tuples of its type arguments, in the evaluated function's generics
         self.enumerated = set()
+        self.split_loops = set()   # loops that peel a slice with split_first(_mut): `while let Some((x, rest)) = r.split_first() { ..; r = rest }`
         self.subst = {}        # fid -> {generic parameter name: type string in the root's vocabulary}
         self.inlined = set()   # keys of bodies evaluated in place
         self.modelled = set()  # names of modelled std functions met
@@ -367,6 +369,8 @@ class Evaluator(object):
         if t[0] == "iternext" and variant == "Some":
             if t[1] in self.enumerated:
                 return ("agg", "tuple", "tuple", (("index_of", t[1]), ("elem", t[1])), ())
+            if t[1] in self.split_loops:
+                return ("agg", "tuple", "tuple", (("elem", t[1]), ("rest", t[1])), ())
             return ("elem", t[1])
         return ("field", ("variant", t, variant), str(i), adt)
 
@@ -452,6 +456,8 @@ class Evaluator(object):
                     t = ("elem", lid)
                     if lid in self.enumerated:
                         t = ("agg", "tuple", "tuple", (("index_of", lid), ("elem", lid)), ())
+                    elif lid in self.split_loops:
+                        t = ("agg", "tuple", "tuple", (("elem", lid), ("rest", lid)), ())
                 else:
                     t = ("field", t, name, e.get("adt") or ("tuple" if e.get("tuple") else None))
             elif k == "index":
@@ -774,6 +780,21 @@ class Evaluator(object):
                 # the loop is being written out element by element: this `next` yields the element whose turn it is
                 x = self.unrolling[site]
                 results = [("val", env, path, NONE if x is None else some(x))]
+            elif (region is not None and c.name in ("split_first", "split_first_mut") and not c.local and "slice" in (c.path or "") and not path.events and not path.conds
+                    and region[2].source is None and len(args) == 1 and _strip_casts(args[0])[:2] == ("lvar", region[2].id)):
+                # the head of `while let Some((x, rest)) = cursor.split_first_mut()`: a traversal of what the cursor starts as,
+                # provided every way round moves the cursor to `rest` (classify checks that)
+                L = region[2]
+                L.kind = "for"
+                L.split_key = _strip_casts(args[0])[2]
+                L.raw_source = ("splitsrc", L.id)
+                L.iter_ty = None
+                L.elem = ("elem", L.id)
+                L.head_site = site
+                self.split_loops.add(L.id)
+                self.callees[site] = c
+                results = [("val", env, path, ("iternext", L.id))]
+                self.enum_of[("iternext", L.id)] = OPTION
             elif (region is not None and c.name == "next" and c.trait in ITER_TRAITS and not path.events and not path.conds
                     and region[2].source is None and args and not _mentions_loop(args[0], region[2].id)):
                 L = region[2]
@@ -1194,6 +1215,17 @@ class Evaluator(object):
 
     def classify(self, L):
         """for / counter recognition, `done` exits, peeling of lazy adaptors off the source."""
+        if L.kind == "for" and L.raw_source == ("splitsrc", L.id):
+            k = L.split_key
+            moves = [it.updates.get(k) for it in L.iters if it.end == "continue"]
+            if k in L.carried and moves and all(m == ("rest", L.id) for m in moves):
+                L.raw_source = L.carried.pop(k)
+                for it in L.iters:
+                    it.updates.pop(k, None)
+            else:
+                # the cursor is not simply advanced: not a traversal anybody should rely on
+                L.kind = "while"
+                L.raw_source = L.source = None
         if L.kind == "for" and L.raw_source is not None:
             atom = ("discr", ("iternext", L.id))
             for it in L.iters:
@@ -1277,6 +1309,12 @@ def _rel_to(atom, lv):
     if atom[3] == lv:
         return flip[atom[1]], atom[2]
     return None
+
+
+def _strip_casts(t):
+    while isinstance(t, tuple) and t and t[0] == "cast":
+        t = t[2]
+    return t if isinstance(t, tuple) else ()
 
 
 def _mentions_term(t, x):
@@ -1496,6 +1534,10 @@ def _kind_of(c):
         return "try"
     if c.name in ("retain", "retain_mut") and not c.trait:
         return "vec"
+    if c.name == "swap" and (p.startswith("std::mem::") or p.startswith("core::mem::")):
+        return "mem"
+    if c.name == "contains" and ("slice::" in p or "[T]" in p or p.startswith("std::vec::Vec")) and not c.trait:
+        return "slice"
     if c.name in ("box_assume_init_into_vec_unsafe", "into_vec") and (p.startswith("std::boxed::") or p.startswith("std::slice::") or p.startswith("alloc::")):
         return "alloc"
     if c.crate in ("rayon", "rayon_core"):
